@@ -19,5 +19,5 @@ Extraction "model.ml"
   bs_run bs_zero span_run span_init dm_run dm_empty map_dispatch_tab list_dispatch_tab
   size_arg encode_arg decode_arg uf_run uf_new
   api_step p_init run_history fresh_outcome
-  env_alive parse_or_default
+  env_alive parse_or_default parse_uint0
   maxDepthLimit params_ok tables_ok legacy_ok access_ok.
